@@ -131,10 +131,32 @@ def verify(i):
     print(json.dumps({k: m.get(k) for k in ("id", "demo_with_patch", "demo_without_patch", "suite_with_patch")})[:900])
 
 
+def scratch_on_head(i):
+    """Scratch copy of /repo's HEAD with the patch applied, or None when the patch no longer applies there (it overlaps a later fix)."""
+    head = subprocess.run(["git", "-C", "/repo", "rev-parse", "--short", "HEAD"], capture_output=True, text=True).stdout.strip()
+    os.environ["VERIF_SEED_BASE"] = head
+    try:
+        return scratch(True, i), head
+    except SystemExit:
+        return None, head
+    finally:
+        os.environ.pop("VERIF_SEED_BASE", None)
+
+
 def run(i, props, tier):
     m = load_meta(i)
     props = props or [m.get("property", i.split("-")[0])]
-    tmp = scratch(True, i)
+    # the change is evaluated on top of the repository as it is now (with every later fix); only when the patch no longer
+    # applies there is it evaluated on the commit it was written against
+    tmp, head = (None, None) if os.environ.get("VERIF_SEED_BASE") else scratch_on_head(i)
+    if tmp is None:
+        tmp = scratch(True, i)
+        m["evaluated_on"] = os.environ.get("VERIF_SEED_BASE") or m.get("base") or DEFAULT_BASE
+        if head:
+            m["evaluated_on_note"] = f"patch does not apply on {head} (it overlaps a later fix): evaluated on the commit it was written against"
+    else:
+        m["evaluated_on"] = head
+        m.pop("evaluated_on_note", None)
     try:
         for prop in props:
             t0 = time.time()
